@@ -32,6 +32,8 @@ def generic(pid, work, tier, seed, cmd, tracespec, scripts, design, sigfn, rule,
                 if lines[i].get("ev") == "reset":
                     sid = lines[i].get("script")
                     break
+            if sid and ss is not None and sid not in {x["id"] for x in ss} and ".t" in sid:
+                sid = sid.rsplit(".t", 1)[0]     # a tunnel of a multi-tunnel script
             viol.append({"line": ln, "guard": v[1], "a": v[2], "b": v[3] if len(v) > 3 else "", "script": sid, "event": lines[ln - 1]})
         return rep, res, viol, lines
     rep, res, viol, lines = run(scripts, pid.lower())
